@@ -153,7 +153,8 @@ TREnd   == Line("rend") /\ rd[E.reader] # Nil /\ rd[E.reader].got = E.ver /\ rd'
 (* --- steps without a line ----------------------------------------------------------------------------------- *)
 Silent ==
   /\ owed = Nil
-  /\ \/ S!InitRoundEnd \/ S!InitWake \/ S!PollFinish \/ S!PollerGiveUp \/ S!PollerExit
+  /\ \/ S!InitRoundEnd \/ S!InitWake \/ S!InitGiveUp \/ S!PollFinish \/ S!PollerGiveUp \/ S!PollerExit
+     \/ \E n \in NameSet : S!FlightSkip(n)
      \/ \E n \in NameSet : (S!PollStep(n) /\ out'.ev = "expire")
      \/ \E k \in CallerSet : (S!LookupEnter(k) \/ S!LookupGiveUp(k) \/ S!CtxExpire(k) \/ S!RefreshGiveUp(k))
      \/ (cfg.fileClient /\ \E n \in NameSet : (S!InitReq(n) \/ S!InitResp(n, FALSE)))    \* a file-backed client is not scripted
